@@ -1,0 +1,130 @@
+//! Seams for the deterministic simulator under /verif (see `ide::verif_hooks`).
+//!
+//! Compiled only with `--cfg tablegen_lsp_verif`. Drop-in replacements for the three
+//! primitives through which the server meets the scheduler and the disk:
+//! `std::sync::RwLock`, `tokio::task::{spawn_blocking, JoinHandle}` and `std::fs`.
+
+use std::ops::{Deref, DerefMut};
+
+use ide::verif_hooks::{hooks, Guard, LockId};
+
+/// `std::sync::RwLock` whose admission is decided by the simulator: a task first takes the
+/// ghost lock (blocking inside the simulator), then the real lock with `try_*`, which
+/// must succeed. A failure means the ghost and the real lock disagree (a harness error).
+#[derive(Debug, Default)]
+pub struct RwLock<T> {
+    inner: std::sync::RwLock<T>,
+}
+
+#[derive(Debug)]
+pub struct LockError(#[allow(dead_code)] &'static str);
+
+pub struct RwLockReadGuard<'a, T> {
+    // field order: the real guard is dropped before the ghost is released
+    real: std::sync::RwLockReadGuard<'a, T>,
+    _ghost: Guard,
+}
+
+pub struct RwLockWriteGuard<'a, T> {
+    real: std::sync::RwLockWriteGuard<'a, T>,
+    _ghost: Guard,
+}
+
+impl<T> RwLock<T> {
+    pub fn new(value: T) -> Self {
+        Self {
+            inner: std::sync::RwLock::new(value),
+        }
+    }
+
+    pub fn read(&self) -> Result<RwLockReadGuard<'_, T>, LockError> {
+        let ghost = hooks().lock_acquire(LockId::Vfs, false);
+        match self.inner.try_read() {
+            Ok(real) => Ok(RwLockReadGuard {
+                real,
+                _ghost: ghost,
+            }),
+            Err(std::sync::TryLockError::Poisoned(_)) => Err(LockError("poisoned")),
+            Err(std::sync::TryLockError::WouldBlock) => {
+                panic!("verif: lock model diverged (read admitted, real lock busy)")
+            }
+        }
+    }
+
+    pub fn write(&self) -> Result<RwLockWriteGuard<'_, T>, LockError> {
+        let ghost = hooks().lock_acquire(LockId::Vfs, true);
+        match self.inner.try_write() {
+            Ok(real) => Ok(RwLockWriteGuard {
+                real,
+                _ghost: ghost,
+            }),
+            Err(std::sync::TryLockError::Poisoned(_)) => Err(LockError("poisoned")),
+            Err(std::sync::TryLockError::WouldBlock) => {
+                panic!("verif: lock model diverged (write admitted, real lock busy)")
+            }
+        }
+    }
+}
+
+impl<T> Deref for RwLockReadGuard<'_, T> {
+    type Target = T;
+    fn deref(&self) -> &T {
+        &self.real
+    }
+}
+
+impl<T> Deref for RwLockWriteGuard<'_, T> {
+    type Target = T;
+    fn deref(&self) -> &T {
+        &self.real
+    }
+}
+
+impl<T> DerefMut for RwLockWriteGuard<'_, T> {
+    fn deref_mut(&mut self) -> &mut T {
+        &mut self.real
+    }
+}
+
+/// Stand-in for `tokio::task`: the closure runs on a simulator-owned task and the handle is
+/// a oneshot future whose output, like tokio's, is a `Result`.
+pub mod task {
+    use std::future::Future;
+    use std::pin::Pin;
+    use std::task::{Context, Poll};
+
+    use futures::channel::oneshot;
+    use ide::verif_hooks::hooks;
+
+    pub struct JoinHandle<T>(oneshot::Receiver<T>);
+
+    impl<T> Future for JoinHandle<T> {
+        type Output = Result<T, oneshot::Canceled>;
+        fn poll(mut self: Pin<&mut Self>, cx: &mut Context<'_>) -> Poll<Self::Output> {
+            Pin::new(&mut self.0).poll(cx)
+        }
+    }
+
+    pub fn spawn_blocking<F, T>(f: F) -> JoinHandle<T>
+    where
+        F: FnOnce() -> T + Send + 'static,
+        T: Send + 'static,
+    {
+        let (tx, rx) = oneshot::channel();
+        hooks().spawn(Box::new(move || {
+            let _ = tx.send(f());
+        }));
+        JoinHandle(rx)
+    }
+}
+
+/// Stand-in for `std::fs`.
+pub mod fs {
+    use std::path::Path;
+
+    pub fn read_to_string(path: impl AsRef<Path>) -> std::io::Result<String> {
+        ide::verif_hooks::hooks()
+            .read_file(path.as_ref())
+            .ok_or_else(|| std::io::Error::from(std::io::ErrorKind::NotFound))
+    }
+}
